@@ -61,7 +61,7 @@ func runNativeOnce(sc *Scenario) (string, bool) {
 	if env.cancel != nil {
 		defer env.cancel()
 	}
-	return outcomeOf(sc, env.rec, nil), true
+	return clientView(sc, env.rec), true
 }
 
 func cmdNative(args []string) int {
@@ -124,12 +124,12 @@ func nativeConformance(prop, tier string, scs []*Scenario, idx []int, results []
 		sum.Skipped += ns.Timeouts
 		for o, n := range ns.Outcomes {
 			sum.Runs += int(n)
-			if _, ok := r.Outcomes[o]; ok || !r.Exhaustive {
+			if _, ok := r.Views[o]; ok || !r.Exhaustive {
 				if ok {
 					sum.Validated += int(n)
 				}
 			} else {
-				sum.Mismatches = append(sum.Mismatches, fmt.Sprintf("%s/%s: native outcome not among the %d explored: %s", scs[ns.Index].Transport, scs[ns.Index].Name, len(r.Outcomes), o))
+				sum.Mismatches = append(sum.Mismatches, fmt.Sprintf("%s/%s: native client view not among the %d explored: %s", scs[ns.Index].Transport, scs[ns.Index].Name, len(r.Views), o))
 			}
 		}
 	}
